@@ -231,7 +231,18 @@ func dominatesInstr(a, b ssa.Instruction) bool {
 
 // literalFields: for a `&T{...}` literal (Alloc), the values stored into its fields, by field name.
 func literalFields(v ssa.Value) (map[string]ssa.Value, bool) {
-	a, ok := stripConv(v).(*ssa.Alloc)
+	v = stripConv(v)
+	// variable holding the literal's address (captured by a closure): follow the single assignment
+	if u, isLoad := v.(*ssa.UnOp); isLoad && u.Op == token.MUL {
+		if cell, isCell := u.X.(*ssa.Alloc); isCell {
+			if sv := singleStore(cell); sv != nil {
+				v = stripConv(sv)
+			} else {
+				v = cell // struct literal held by value: `*cell` where cell is the literal itself
+			}
+		}
+	}
+	a, ok := v.(*ssa.Alloc)
 	if !ok {
 		return nil, false
 	}
